@@ -46,6 +46,11 @@ def Poly(verts, holes=(), var="x"):
             "holes": [[list(v) for v in h] for h in holes]}
 
 
+def M(shape, winding="out", source="arrays", var="x"):
+    """convex polyhedron of tpmc.ref.poly3d.SHAPES, realised by the library's TrimeshPolyhedron"""
+    return {"k": "mesh", "var": var, "shape": shape, "winding": winding, "source": source}
+
+
 def Pt(p, var="x"):
     return {"k": "point", "var": var, "p": list(p) if isinstance(p, (list, tuple)) and not is_aff(p) else p}
 
@@ -90,8 +95,8 @@ def is_aff(e):
     return isinstance(e, list) and len(e) == 3 and e[0] == "aff"
 
 
-PRIMS = ("interval", "circle", "para", "tri", "sphere", "poly", "point")
-DIMS = {"interval": 1, "circle": 2, "para": 2, "tri": 2, "sphere": 3, "poly": 2}
+PRIMS = ("interval", "circle", "para", "tri", "sphere", "poly", "point", "mesh")
+DIMS = {"interval": 1, "circle": 2, "para": 2, "tri": 2, "sphere": 3, "poly": 2, "mesh": 3}
 
 
 # ------------------------------------------------------------------ structure -------------
@@ -119,6 +124,8 @@ def show(a):
         return "Poly%d%s" % (len(a["verts"]), "h" * len(a["holes"]))
     if k == "point":
         return "Pt%s" % e(a["p"])
+    if k == "mesh":
+        return "M(%s,%s,%s)" % (a["shape"], a["winding"], a["source"])
     if k == "union":
         return "(%s %s %s)" % (show(a["a"]), "+d" if a["disjoint"] else "+", show(a["b"]))
     if k == "cut":
@@ -172,7 +179,7 @@ def free_vars(a):
     acc = set()
     if k in PRIMS:
         for key, val in a.items():
-            if key not in ("k", "var", "verts", "holes"):
+            if key not in ("k", "var", "verts", "holes", "shape", "winding", "source"):
                 _aff_vars(val, acc)
         return acc
     if k == "prod":
@@ -230,7 +237,7 @@ def substitute(a, fixed):
     for key, val in a.items():
         if isinstance(val, dict):
             out[key] = substitute(val, fixed)
-        elif key in ("k", "var", "verts", "holes", "disjoint", "contained"):
+        elif key in ("k", "var", "verts", "holes", "disjoint", "contained", "shape", "winding", "source"):
             out[key] = val
         else:
             out[key] = sub(val)
@@ -319,6 +326,9 @@ def sdf(a, vals):
         return poly_sdf(_coords(a, vals, n), [prim_vertices(a, vals, n)])
     if k == "poly":
         return poly_sdf(_coords(a, vals, n), [a["verts"]] + list(a["holes"]))
+    if k == "mesh":
+        from . import poly3d
+        return poly3d.sdf_bound(*poly3d.SHAPES[a["shape"]], _coords(a, vals, n))
     if k == "union":
         return np.minimum(sdf(a["a"], vals), sdf(a["b"], vals))
     if k == "inter":
@@ -479,6 +489,9 @@ def ref_box(a, vals):
         p = a["p"]
         pv = evv(p, vals, n) if isinstance(p, list) and not is_aff(p) else ev(p, vals, n)[:, None]
         return np.stack([pv, pv], 2)
+    if k == "mesh":
+        from . import poly3d
+        return np.broadcast_to(poly3d.box(poly3d.SHAPES[a["shape"]][0])[None], (n, 3, 2)).copy()
     if k == "union":
         ba, bb = ref_box(a["a"], vals), ref_box(a["b"], vals)
         return np.stack([np.minimum(ba[..., 0], bb[..., 0]), np.maximum(ba[..., 1], bb[..., 1])], 2)
@@ -577,6 +590,9 @@ def measure(a, vals=None, n=None):
         return ar * one
     if k == "point":
         return one
+    if k == "mesh":
+        from . import poly3d
+        return poly3d.volume(*poly3d.SHAPES[a["shape"]]) * one
     if k in ("bleft", "bright"):
         return one
     if k == "boundary":
@@ -588,6 +604,9 @@ def measure(a, vals=None, n=None):
             return 2 * np.pi * ev(i["r"], vals, n)
         if ik == "sphere":
             return 4 * np.pi * ev(i["r"], vals, n) ** 2
+        if ik == "mesh":
+            from . import poly3d
+            return poly3d.area(*poly3d.SHAPES[i["shape"]]) * one
         if ik in ("para", "tri"):
             return loop_len(prim_vertices(i, vals, n))
         if ik == "poly":
@@ -661,6 +680,9 @@ def boundary_points(a, vals, s):
         phi = np.arccos(1 - 2 * i / m)
         th = np.pi * (1 + 5 ** 0.5) * i
         return c + r * np.stack([np.cos(th) * np.sin(phi), np.sin(th) * np.sin(phi), np.cos(phi)], 1)
+    if k == "mesh":
+        from . import poly3d
+        return poly3d.surface_points(*poly3d.SHAPES[a["shape"]], m)
     if k in ("para", "tri", "poly"):
         loops = ([prim_vertices(a, vals, 1)[0]] if k != "poly" else
                  [np.asarray(a["verts"], dtype=np.float64)] + [np.asarray(h, dtype=np.float64) for h in a["holes"]])
@@ -715,6 +737,27 @@ def leaves(a, maps=()):
     if k in ("union", "cut", "inter"):
         return leaves(a["a"], maps) + leaves(a["b"], maps)
     return leaves(a["a"], maps)
+
+
+def has_mesh(a):
+    if a["k"] == "mesh":
+        return True
+    return any(has_mesh(v) for v in a.values() if isinstance(v, dict))
+
+
+def mesh_ambiguous(a, vals, tol):
+    """rows within tol of the surface of a mesh leaf of the expression (ray-casting membership of such points is
+    unspecified, and the property only speaks about points farther than the tolerance from the boundary)"""
+    n = _nrows(vals)
+    out = np.zeros(n, dtype=bool)
+    for leaf, maps in leaves(a):
+        if leaf["k"] != "mesh":
+            continue
+        v = vals
+        for mp in maps:
+            v = pullback(mp, v)
+        out |= np.abs(sdf(leaf, v)) <= tol
+    return out
 
 
 def has_kind_prod(a):
